@@ -4,8 +4,8 @@
 # runs one check against it (VERIF_REPO), prints a one-line verdict, removes the worktree.
 N=$1; P=$2; T=${3:-quick}
 WT=/var/tmp/sr_${N}_$P
-rm -rf $WT; git -C /repo worktree prune
-git -C /repo worktree add -q --detach $WT HEAD || exit 2
+rm -rf $WT
+flock /var/tmp/seedrun.lock sh -c "git -C /repo worktree prune; git -C /repo worktree add -q --detach $WT HEAD" || exit 2
 ( cd $WT && git apply ${SEEDPATCH:-/verif/seeded/$N/patch.diff} ) || { echo "seed=$N PATCH-FAILED"; git -C /repo worktree remove --force $WT; exit 2; }
 cd /verif
 START=$(date +%s)
@@ -17,7 +17,7 @@ nv=$(grep -c '^VIOLATION' $OUT)
 nf=$(grep -c 'no-failing-input-found' $OUT)
 echo "seed=$N check=$P rc=$rc violations=$nv no_input=$nf secs=$((END-START))"
 [ $rc -ge 2 ] && tail -5 $OUT
-git -C /repo worktree remove --force $WT
+flock /var/tmp/seedrun.lock git -C /repo worktree remove --force $WT
 B=/verif/build/scratch_$(python3 -c "import hashlib;print(hashlib.sha1('$WT'.encode()).hexdigest()[:8])")
 [ -d "$B/replays" ] && mkdir -p /var/tmp/sr_replays/${N}_$P && cp -r $B/replays/. /var/tmp/sr_replays/${N}_$P/ 2>/dev/null
 rm -rf $B
